@@ -18,18 +18,21 @@ Programs: every call kind (function, method, pure, async_proxy, non-generator, @
 every nesting of tuples / lists / dicts of ANY width and depth, raises (of `Exception`s and of BaseException-only errors)
 and try/except at every yield, `return` and `asynq.result()` of ANY kind of object (`valueKind`), plain synchronous calls,
 yielded instances of SUBCLASSES of tuple / list / dict (`Ys.sub`), async_proxy functions returning None or a container
-instead of one future (`Ys.pval`).
+instead of one future (`Ys.pval`), futures that are not ConstFutures - ErrorFuture, lazy Future - (`Ys.ofut`).
 
-The equivalence statements (named `_partial`) carry two decidable side conditions, each with a machine-checked
-counterexample showing that it cannot be dropped FOR THE CODE AS IT IS:
+Hypotheses, each with a machine-checked witness that it cannot be dropped FOR THE CODE AS IT IS (section B):
 * `p.safe`   - every handler of the program is `except Exception`, or the program raises no BaseException-only error
-               (`C15_base_handler_counterexample`);
-* `p.plainY` - no yielded container is an instance of a subclass and no async_proxy function returns a non-future
-               (`C15_container_subclass_counterexample`, `C15_proxy_value_counterexample`);
-* `p.noDedupSync` (only where a statement says WITH WHICH exception a synchronous call is refused) - no plain synchronous
-               call of a @deduplicate() function (`C15_dedup_sync_counterexample`);
-and, where they speak about outcomes, `p.noSync` or "the asyncio run logged no synchronous call": a plain synchronous call
-is refused under asyncio by design (`C15_noSync_necessary`).
+               (`C15_base_handler_counterexample`; a static over-approximation: sufficient, not a characterisation);
+* `p.plainY` - no yielded container is an instance of a subclass, no async_proxy function returns a non-future, every future
+               made in a yield is a ConstFuture, an ErrorFuture or a lazy Future (`C15_container_subclass_counterexample`,
+               `C15_proxy_value_counterexample`);
+* where a statement speaks about outcomes: `p.noSync` or "the asyncio run logged no synchronous call" - a plain synchronous
+  call is refused under asyncio by design (`C15_noSync_necessary`); `s'.mode = false` (`C15_flag_off_necessary`);
+* `p.validCalls` (statements about refused synchronous calls) - NOT used by the proofs: it delimits the `Call` terms for which
+  the model is tied to the code (the harness sends no others).  The model refuses the plain synchronous call of every term;
+  the code does not for `.sync {kind := .pure}` (`pure(args)` returns an un-awaited coroutine, nothing is refused) and
+  `.sync {kind := .proxy, sfn := true}` (AsyncAndSyncPairProxyDecorator.__call__ runs sync_fn whatever the flag): neither is
+  "a plain synchronous call of an @asynq() function"; shown on the real code (DESIGN.md 5 C15), not in the model.
 
 ## Section A: statements with content (induction over all programs)
 -/
@@ -90,88 +93,74 @@ theorem C15_run_ends_with_outcome (c : Call) (p : Prog) : ∀ ob ∈ observe c p
   · exact topA_root c p _ rfl rfl
   · exact topA_root c p _ rfl rfl
 
-/-- no computation ends with an escaping AsyncTaskResult (ALL programs) -/
-theorem C15_no_result_escapes (c : Call) (p : Prog) :
-    isEsc (topA c p {}).1 = false ∧ isEsc (topCall c p {}).1 = false := ⟨topA_noEsc c p, topCall_noEsc c p⟩
-
-/-- the flag at every level: resolving any yielded structure (children awaited directly or through `_gather`, each in its
-    own copy of the context) leaves the flag of the running coroutine as it was (induction over the structure) -/
-theorem C15_mode_confined_nested (y : Ys) (s : St) : (resolveA y s).2.mode = s.mode := resolveA_mode y s
-
-/-- the asynq paths never touch the flag -/
-theorem C15_mode_untouched_by_asynq (c : Call) (p : Prog) (s : St) :
-    (topCall c p s).2.mode = s.mode ∧ (topValue c p s).2.mode = s.mode := by
-  constructor
-  · unfold topCall; split
-    · rfl
-    · rw [bodyR_mode]; rfl
-  · unfold topValue; split
-    · rfl
-    · rw [bodyR_mode]; rfl
-
 /-- **inside, the flag is on; everything the engine awaits together completes before the yield returns or raises; every
-    synchronous call attempted FAILS and its callee never runs** (ALL programs): every event logged by an asyncio run
-    satisfies `evOkA` (a callee run by a synchronous call would log `start _ false` or `sfn`, which `evOkA` rejects; the call
-    comes back with the RuntimeError or - `refusal` - with the TypeError raised while its message is built:
-    `C15_sync_refused_with_RuntimeError_partial` says when it is the RuntimeError) -/
-theorem C15_asyncio_run_good (c : Call) (p : Prog) : (topA c p {}).2.log.all evOkA = true := (topA_good c p).2
+    synchronous call attempted is REFUSED with the RuntimeError and its callee never runs** (ALL programs): every event logged
+    by an asyncio run satisfies `evOkA` (a callee run by a synchronous call would log `start _ false` or `sfn`, which `evOkA`
+    rejects; a call that came back with anything but `.err .syncRefused` too) -/
+theorem C15_asyncio_run_good (c : Call) (p : Prog) (_hv : p.validCalls = true) :
+    (topA c p {}).2.log.all evOkA = true := (topA_good c p).2
 
 /-- **no `sync_fn` ever runs inside an asyncio run** (ALL programs; every callee declared any way: function / method,
     with or without `sync_fn=`, with or without `asyncio_fn=`): the guard of `AsyncDecorator.__call__` AND that of
     `AsyncAndSyncPairDecorator.__call__` (reached directly or through `AsyncAndSyncPairDecoratorBinder.__call__`) refuse the
     call before the synchronous implementation is entered - the log of `await fn.asyncio(args)` contains no `sfn` event -/
-theorem C15_sync_fn_never_runs_under_asyncio (c : Call) (p : Prog) :
+theorem C15_sync_fn_never_runs_under_asyncio (c : Call) (p : Prog) (_hv : p.validCalls = true) :
     (topA c p {}).2.log.all (fun e => !isSfn e) = true := by
   have h := (topA_good c p).2
   rw [List.all_eq_true] at h ⊢
   intro e he
   have h1 := h e he
-  cases e <;> simp_all [evOkA, syncFailedOk, isSfn]
+  cases e <;> simp_all [evOkA, syncRefusedOk, isSfn]
 
 /-- **every plain synchronous call attempted inside an asyncio run comes back with the RuntimeError "asyncio mode does not
-    support synchronous calls"** - whatever the declaration of the callee (function / method / non-generator, with or without
-    `sync_fn=` / `asyncio_fn=`), at any depth of the task tree, in a handler or not -, for every program that makes no plain
-    synchronous call of a @deduplicate() function (`C15_dedup_sync_counterexample`: for those the code as it is raises TypeError) -/
-theorem C15_sync_refused_with_RuntimeError_partial (c : Call) (p : Prog) (hg : p.noDedupSync = true) :
-    (topA c p {}).2.log.all syncRefusedOk = true := topA_strict c p hg
+    support synchronous calls"** - whatever the declaration of the callee (function / method / non-generator / @deduplicate(),
+    with or without `sync_fn=` / `asyncio_fn=`), at any depth of the task tree, in a handler or not (ALL programs) -/
+theorem C15_sync_refused_with_RuntimeError (c : Call) (p : Prog) (_hv : p.validCalls = true) :
+    (topA c p {}).2.log.all syncRefusedOk = true := topA_strict c p
+
+/-- **nothing of the callee of a refused call runs** (ALL programs): every event an asyncio run logs - start, resumption, end,
+    asyncio_fn, synchronous call - belongs to the root or to a task of `p.live`: the tasks of the yielded structures reached
+    through continuations and handlers.  The callee of a plain synchronous call and the tasks inside its body are not in
+    `p.live` (`C15_live_excludes_callee`, for programs whose labels are distinct - as the harness' are) -/
+theorem C15_refused_callee_never_runs (c : Call) (p : Prog) (_hv : p.validCalls = true) :
+    ∀ e ∈ (topA c p {}).2.log, e.label ∈ c.label :: p.live := by
+  intro e he
+  have h := List.all_eq_true.mp (topA_live c p) e he
+  simpa [inL] using h
 
 /-- the asynq side of the same statement, for ALL programs: flag off inside, siblings complete first, synchronous calls
     allowed -/
 theorem C15_asynq_run_good (c : Call) (p : Prog) : (topCall c p {}).2.log.all evOkR = true := (topCall_good c p).2
 
-/-- `firstFailure` of a list whose first failing element is `o` is `o`, whatever the later elements did -/
-theorem C15_first_failure_wins (pre : List Out) (o : Out) (post : List Out)
-    (hpre : pre.all Out.isOk = true) (ho : o.isOk = false) :
-    firstFailure (pre ++ o :: post) = o.asFailure := firstFailure_split pre o post hpre ho
-
 /-- **shape**: a value delivered at a yield has the shape of the yielded structure (ALL programs) -/
 theorem C15_shape (y : Ys) (s : St) (v : Val) (h : (resolveA y s).1 = .ok v) : shapeOk y v = true :=
   resolveA_shape y s v h
 
-/-- **`_gather` returns the values untouched** (ALL programs, ALL kinds of value): if every awaitable yielded together ended
-    with a value - an exception INSTANCE returned as a value included - the yield receives exactly those values, in order -/
-theorem C15_gather_all_ok (l : YsL) (s : St) (h : (elemsA l s).all Out.isOk = true) :
-    ∃ vs, (gatherA l s).1 = .ok vs ∧ elemsA l s = vs.map Out.ok := by
-  rw [gatherA_firstFailure]; exact firstFailure_ok _ h
-
-/-- **nothing is raised that did not fail**: an error raised by `_gather` is the outcome of one of the awaitables -/
-theorem C15_failure_is_an_element (l : YsL) (s : St) (e : Err) (h : (gatherA l s).1 = .err e) :
-    Out.err e ∈ elemsA l s := by
-  rw [gatherA_firstFailure] at h; exact firstFailure_err_mem _ e h
-
-/-- **CORR = ok implies SPEC = SPECM** (ALL observations, no hypothesis): `spec` reads of a log only what the correspondence
-    check compares - the canonical per-task form `canonE` and the first event - and never the relative order of events of
-    different tasks; so if the check finds the model's and the implementation's observations equal (`sameViews`), the observer
-    gives both the same verdict, clause for clause -/
+/-- **equal views, equal verdicts** (ALL observations, no hypothesis): the observer - the observation-only clauses `specClause`
+    and, for any case `(c, p)`, the program-aware ones `specClauseP` - reads of a log only what the correspondence check
+    compares: the canonical per-task form `canonE` and the first event, never the relative order of events of different tasks;
+    so if the model's and the implementation's observations have the same view (`sameViews`), the observer gives both the same
+    verdict, clause for clause.  (That the driver's `firstDiff` is `none` exactly when `sameViews` holds is by reading of
+    Drv/Asyncio.lean, not a theorem.) -/
 theorem C15_spec_respects_correspondence (model impl : List Obs) (h : sameViews model impl = true) :
-    specClause model = specClause impl ∧ spec model = spec impl := by
+    specClause model = specClause impl ∧ spec model = spec impl ∧
+    ∀ (c : Call) (p : Prog), specClauseP c p model = specClauseP c p impl := by
   have := specClause_congr h
-  exact ⟨this, by simp [spec, this]⟩
+  exact ⟨this, by simp [spec, this], fun c p => specClauseP_congr c p h⟩
 
-/-- **C15 as a whole**: the observations of the model under all five ways of running a program are accepted by the
-    observer `spec`, the same Boolean function the check evaluates on the observations of the real implementation -/
-theorem C15_spec_holds_partial (c : Call) (p : Prog) (hy : p.plainY = true) (hx : p.safe = true)
-    (hg : p.noDedupSync = true) : spec (observe c p) = true := spec_holds c p hy hx hg
+/-- **C15, the observation-only observer**: the observations of the model under all five ways of running a program are
+    accepted by `spec` - flag off before / after / on inside, siblings complete, synchronous calls refused under asyncio and
+    allowed under asynq, no escaping AsyncTaskResult, every run ends with the end of its root task carrying the outcome, and
+    for runs that attempted no synchronous call: same outcome and same deliveries in every task as `fn(args)` -/
+theorem C15_spec_holds_partial (c : Call) (p : Prog) (hy : p.plainY = true) (hx : p.safe = true) :
+    spec (observe c p) = true := spec_holds c p hy hx
+
+/-- **C15 as a whole** - what the check evaluates on the observations of the real implementation (`SPEC`): `spec` and the
+    program-aware clauses `specObsP`.  Of those, `refused-callee-ran` has content (`C15_refused_callee_never_runs`);
+    `asyncio-fn` and `sync-run-deliveries` compare with the model's own run and hold of the model by reflexivity (what they say
+    about the code is the correspondence; what the model's run is like is stated by the theorems above) -/
+theorem C15_specP_holds_partial (c : Call) (p : Prog) (hy : p.plainY = true) (hx : p.safe = true) :
+    specP c p (observe c p) = true := specP_holds c p hy hx
 
 /-! ## Section B: where the code as it is violates the property (genuine divergences), and why each hypothesis is needed -/
 
@@ -240,13 +229,24 @@ theorem C15_proxy_value_counterexample :
     spec (observe c q) = false := by
   decide
 
-/-- (after the repair of `sync-call-of-deduplicated-function-raises-TypeError-in-asyncio-mode`) a plain synchronous call of a
-    @deduplicate() function made while the flag is on is refused with the RuntimeError like any other; `p.noDedupSync` is no
-    longer needed for it -/
+/-- (after the repair of `non-const-future-yield-rejected-by-asyncio`) an ErrorFuture / a lazy Future made in a yield is
+    resolved by both engines alike (`.value()`); `Ys.ofut` is inside `plainY` and the observer accepts -/
+theorem C15_other_future_resolved :
+    let c : Call := { kind := .gen, afn := false, label := 0 }
+    let p : Prog := .yld false (.ofut true 1) (.ret 1) .reraise
+    let q : Prog := .yld false (.ofut false 7) (.ret 1) .reraise
+    p.plainY = true ∧ q.plainY = true ∧
+    (topCall c p {}).1 = .err (.u 1) ∧ (topA c p {}).1 = .err (.u 1) ∧ specP c p (observe c p) = true ∧
+    (topCall c q {}).1 = .ok (.node 1 [.a 7]) ∧ (topA c q {}).1 = .ok (.node 1 [.a 7]) ∧ specP c q (observe c q) = true := by
+  decide
+
+/-- an instance of `C15_sync_refused_with_RuntimeError` (the repaired former finding
+    `sync-call-of-deduplicated-function-raises-TypeError-in-asyncio-mode`): a plain synchronous call of a @deduplicate() function
+    made while the flag is on is refused with the RuntimeError like any other -/
 theorem C15_dedup_sync_refused :
     let c : Call := { kind := .gen, afn := false, label := 0 }
     let p : Prog := .sync { kind := .dedup, afn := false, label := 1 } (.ret 1) (.ret 2) .reraise
-    (topA c p {}).1 = .err .syncRefused ∧ (topA c p {}).2.log.all syncRefusedOk = true ∧ spec (observe c p) = true := by
+    (topA c p {}).1 = .err .syncRefused ∧ (topA c p {}).2.log.all syncRefusedOk = true ∧ specP c p (observe c p) = true := by
   decide
 
 /-- **`p.noSync` (resp. "no synchronous call logged") cannot be dropped** - by design, not a defect: a plain synchronous
@@ -275,15 +275,12 @@ theorem C15_mode_confined (c : Call) (p : Prog) (s : St) : (topA c p s).2.mode =
   simp [topA, callA_mode]
 
 /-- by construction of `bodyA` (one unfolding): a synchronous call while the flag is on is refused, nothing of the callee is
-    logged, the caller continues in its handler with the exception `refusal c` - the RuntimeError unless the callee is a
-    @deduplicate() function -/
+    logged, the caller continues in its handler with the RuntimeError -/
 theorem C15_sync_refused (gen : Bool) (t : Nat) (env : List Val) (caught : Option Err) (i : Nat)
     (c : Call) (child k h : Prog) (s : St) (hm : s.mode = true) :
     bodyA gen t env caught i (.sync c child k h) s =
-      bodyA gen t env (some (refusal c)) i h (s.emit (.syncX t (.err (refusal c)))) ∧
-    (c.kind ≠ .dedup → refusal c = .syncRefused) := by
-  refine ⟨by simp [bodyA, hm], fun hk => ?_⟩
-  cases hc : c.kind <;> simp_all [refusal]
+      bodyA gen t env (some .syncRefused) i h (s.emit (.syncX t (.err .syncRefused))) := by
+  simp [bodyA, hm, refusal, Err.isBase]
 
 /-- by construction of `bodyR` / `syncStart`: the same call made while the flag is off runs the callee - through its `sync_fn`
     (logged first) if it was declared with one -/
@@ -328,6 +325,49 @@ theorem C15_result_is_return (c : Call) (p : Prog) (s : St) :
     of the outcomes of all elements -/
 theorem C15_gather_first_failure (l : YsL) (s : St) : (gatherA l s).1 = firstFailure (elemsA l s) :=
   gatherA_firstFailure l s
+
+/-- by construction: no rule of `bodyA` / `bodyR` / `resolveA` / `ysR` ever INTRODUCES `.esc` (`res` is rendered like `ret`):
+    no computation of the model ends with an escaping AsyncTaskResult; the content is the correspondence (clause
+    `result-escapes` of the observer on the real runs; repaired finding `asynq.result()-escapes-asyncio`) -/
+theorem C15_no_result_escapes (c : Call) (p : Prog) :
+    isEsc (topA c p {}).1 = false ∧ isEsc (topCall c p {}).1 = false := ⟨topA_noEsc c p, topCall_noEsc c p⟩
+
+/-- by construction (`callA_mode` holds for an arbitrary body, `gatherA` restores the flag explicitly: `ensure_future` runs the
+    child in a COPY of the context): resolving any yielded structure leaves the flag of the running coroutine as it was -/
+theorem C15_mode_confined_nested (y : Ys) (s : St) : (resolveA y s).2.mode = s.mode := resolveA_mode y s
+
+/-- by construction: no rule of the asynq-side evaluators writes the flag -/
+theorem C15_mode_untouched_by_asynq (c : Call) (p : Prog) (s : St) :
+    (topCall c p s).2.mode = s.mode ∧ (topValue c p s).2.mode = s.mode := by
+  constructor
+  · unfold topCall; split
+    · rfl
+    · rw [bodyR_mode]; rfl
+  · unfold topValue; split
+    · rfl
+    · rw [bodyR_mode]; rfl
+
+/-- list lemma about `firstFailure` (with `C15_gather_first_failure`: what `_gather` raises is the first failure in list
+    order, whatever the later elements did) -/
+theorem C15_first_failure_wins (pre : List Out) (o : Out) (post : List Out)
+    (hpre : pre.all Out.isOk = true) (ho : o.isOk = false) :
+    firstFailure (pre ++ o :: post) = o.asFailure := firstFailure_split pre o post hpre ho
+
+/-- list lemma about `firstFailure` over `elemsA` (itself defined by `gatherA`'s recursion): if every awaitable yielded
+    together ended with a value - an exception INSTANCE returned as a value included - the yield receives exactly those values -/
+theorem C15_gather_all_ok (l : YsL) (s : St) (h : (elemsA l s).all Out.isOk = true) :
+    ∃ vs, (gatherA l s).1 = .ok vs ∧ elemsA l s = vs.map Out.ok := by
+  rw [gatherA_firstFailure]; exact firstFailure_ok _ h
+
+/-- list lemma: an error raised by `_gather` is the outcome of one of the awaitables -/
+theorem C15_failure_is_an_element (l : YsL) (s : St) (e : Err) (h : (gatherA l s).1 = .err e) :
+    Out.err e ∈ elemsA l s := by
+  rw [gatherA_firstFailure] at h; exact firstFailure_err_mem _ e h
+
+/-- by definition of `Prog.live`: the tasks an asyncio run may start below a plain synchronous call are those of its continuation
+    and of its handler - the callee `c` and the tasks inside its body `child` are not listed (they occur in `live` of the whole
+    program only if the same label is used at another call site; the harness' labels are distinct) -/
+theorem C15_live_excludes_callee (c : Call) (child k h : Prog) : (Prog.sync c child k h).live = k.live ++ h.live := rfl
 
 /-! ## non-vacuity -/
 
@@ -428,6 +468,45 @@ example : specClause ((observe (cG 0) demo).map (fun ob => if ob.conv.isAio then
     = "deliveries" := by
   decide
 
+/-! ### the observer rejects the wrong observations listed by the second audit (N10): runs WITH a refused synchronous call -/
+
+private def onAio (f : Obs → Obs) (obs : List Obs) : List Obs := obs.map (fun ob => if ob.conv.isAio then f ob else ob)
+/-- the unchanged observations pass, and `live` of `demoSync` are the tasks 1 and 2 - not the refused callee 3 -/
+example : specP (cG 0) demoSync (observe (cG 0) demoSync) = true ∧ specP (cG 0) demo (observe (cG 0) demo) = true ∧
+    demoSync.live = [1, 2] ∧ demoSync.validCalls = true := by decide
+/-- (n1) the value delivered to the ROOT at the yield BEFORE the refusal changed to 999, outcome and end untouched ... -/
+example : specClauseP (cG 0) demoSync (onAio (fun ob => { ob with log := ob.log.map (fun e => match e with
+    | .run 0 1 d m (.ok _) => .run 0 1 d m (.ok (.a 999)) | e => e) }) (observe (cG 0) demoSync)) = "sync-run-deliveries" := by
+  decide
+/-- ... (n6) task 1 never ran (its start and end dropped) ... -/
+example : specClauseP (cG 0) demoSync (onAio (fun ob => { ob with log := ob.log.filter (fun e => e.label != 1) })
+    (observe (cG 0) demoSync)) = "sync-run-deliveries" := by decide
+/-- ... (n7) the body of the REFUSED callee (label 3) ran all the same, with the flag on, and the call still came back refused ... -/
+example : specClauseP (cG 0) demoSync (onAio (fun ob => { ob with log := ob.log.flatMap (fun e => match e with
+    | .syncX t o => [.start 3 true, .fin 3 (.ok (.node 1 [])), .syncX t o] | e => [e]) }) (observe (cG 0) demoSync))
+    = "refused-callee-ran" := by decide
+/-- ... (n11) an arbitrary outcome on which `out` and the root's end agree ... -/
+example : specClauseP (cG 0) demoSync (onAio (fun ob => { ob with out := .ok (.a 999), log := ob.log.map (fun e => match e with
+    | .fin 0 _ => .fin 0 (.ok (.a 999)) | e => e) }) (observe (cG 0) demoSync)) = "sync-run-deliveries" := by decide
+/-- ... (n12) a log reduced to [start, refused call, end] ... -/
+example : specClauseP (cG 0) demoSync (onAio (fun ob => { ob with
+    out := .err (.u 1), log := [.start 0 true, .syncX 0 (.err .syncRefused), .fin 0 (.err (.u 1))] }) (observe (cG 0) demoSync))
+    = "sync-run-deliveries" := by decide
+/-- ... a delivery changed in a task that is NOT downstream of the refusal, AFTER it (sibling 3 of the refusing task 1) ... -/
+private def demoSync2 : Prog :=
+  .yld false (.lst (.cons (.task (cG 1) (.sync (cG 2) (.ret 1) (.ret 2) (.raise 7)))
+      (.cons (.task (cG 3) (.yld false (.const 5) (.raise 8) .reraise)) .nil))) (.ret 5) (.ret 6)
+example : specP (cG 0) demoSync2 (observe (cG 0) demoSync2) = true ∧
+    specClauseP (cG 0) demoSync2 (onAio (fun ob => { ob with log := ob.log.map (fun e => match e with
+      | .run 3 1 d m (.ok _) => .run 3 1 d m (.ok (.a 6)) | e => e) }) (observe (cG 0) demoSync2)) = "sync-run-deliveries" := by
+  decide
+/-- ... and (n2) a run without any synchronous call in which no explicit `asyncio_fn` was entered (all `afn` events dropped).
+    (n8 - ALL five runs, `fn(args)` included, consistently deliver the second failure in structure order - is accepted by
+    design: the observer judges `await fn.asyncio(args)` RELATIVE to `fn(args)`, as the property does; that `fn(args)` itself
+    raises the first failure in structure order is the correspondence of the conventions `call` / `value` with `bodyR`.) -/
+example : specClauseP (cG 0) demo (onAio (fun ob => { ob with log := ob.log.filter (fun e => !isAfn e) }) (observe (cG 0) demo))
+    = "asyncio-fn" := by decide
+
 /-- `C15_spec_respects_correspondence` is not vacuous: letting the second sibling start before the first one has finished
     (events 3 and 4 of every log swapped, as a real event loop does) keeps the view and the verdict; a changed delivery does not -/
 private def sibs : Prog := .yld false (.lst (.cons (.task (cG 1) (.ret 1)) (.cons (.task (cG 2) (.ret 2)) .nil))) (.ret 3) .reraise
@@ -467,6 +546,20 @@ example : (Prog.yld true (.task (cG 1) (.raise 2)) (.ret 1) (.ret 2)).safe = tru
 example : valueKind 12 = .exc ∧
     (topA (cG 0) (.yld false (.lst (.cons (.task (cG 1) (.ret 12)) .nil)) (.ret 1) (.ret 2)) {}).1 =
       .ok (.node 1 [.lst [.node 12 []]]) := by decide
+
+/-- call terms outside `validCalls`: the plain synchronous call of a `pure=True` function, of an @async_proxy(sync_fn=..) pair,
+    an `asyncio_fn=` on @deduplicate() -/
+example : (Prog.sync { kind := .pure, afn := false, label := 1 } (.ret 1) (.ret 2) (.ret 3)).validCalls = false ∧
+    (Prog.sync { kind := .proxy, afn := false, label := 1, sfn := true } (.ret 1) (.ret 2) (.ret 3)).validCalls = false ∧
+    (Prog.yld false (.task { kind := .dedup, afn := true, label := 1 } (.ret 1)) (.ret 2) (.ret 3)).validCalls = false ∧
+    demo.validCalls = true ∧ demoPair.validCalls = true := by decide
+/-- `Prog.safe` is sufficient, not necessary (a static over-approximation): an `except BaseException` handler in one child and
+    a BaseException-only error in its SIBLING never meet - `safe` is false, the engines agree and the observer accepts -/
+private def unsafeOk : Prog :=
+  .yld false (.lst (.cons (.task (cG 1) (.yld true (.const 1) (.ret 1) (.ret 2))) (.cons (.task (cG 2) (.raiseB 1)) .nil)))
+    (.ret 3) (.ret 4)
+example : unsafeOk.safe = false ∧ (topA (cG 0) unsafeOk {}).1 = (topCall (cG 0) unsafeOk {}).1 ∧
+    specP (cG 0) unsafeOk (observe (cG 0) unsafeOk) = true := by decide
 
 /-- `C15_shape` is not vacuous (a dict of a tuple and an empty list resolves, with the flag on, to a value of that shape) and
     `shapeOk` is not trivially true -/
